@@ -264,6 +264,8 @@ pub fn gen_cfg(rng: &mut Rng, is_char: bool) -> TokCfg {
 
 pub const EXTRA_UNITS: &[&str] = &["\r\n", "👩\u{200d}💻", "🇩🇪", " ", " ", "<", ">", "\u{0}", "\u{7f}", "\u{80}", "\u{7ff}", "\u{800}", "\u{ffff}", "\u{10000}", "\u{10ffff}", "\u{d7ff}", "\u{e000}"];
 
+pub const ASCII_PROFILE: &[&str] = &["a", "b", "x", "A", "0", ".", " ", " ", "\r\n", "\r\n", "\n", "\r", "\t", "<", ">", "\u{0}", "\u{7f}"];
+
 /// text of 0..=max units: ASCII, multi-byte, combining, CRLF, ZWJ, special spellings, near misses
 pub fn gen_text(rng: &mut Rng, cfg: &TokCfg, max_units: usize, alpha: &[char]) -> String {
     let toks = cfg.all_tokens();
@@ -274,9 +276,16 @@ pub fn gen_text(rng: &mut Rng, cfg: &TokCfg, max_units: usize, alpha: &[char]) -
     };
     // a character-tokenizer text is over the alphabet in half of the cases
     let only_alpha = cfg.is_char && rng.chance(1, 2);
+    // one text in six is pure ASCII including CR, LF, CRLF, TAB and control bytes (and special spellings, which
+    // are ASCII too): the shape on which an `is_ascii()` shortcut would be taken; CR LF is one grapheme cluster
+    let ascii_only = !only_alpha && rng.chance(1, 6);
     let mut s = String::new();
     for _ in 0..n {
         let k = rng.below(20);
+        if ascii_only && !(k < 4 && !toks.is_empty()) {
+            s.push_str(*rng.pick(ASCII_PROFILE));
+            continue;
+        }
         if k < 4 && !toks.is_empty() {
             // special spelling or a near miss of it
             let t = rng.pick(&toks[..toks.len().min(12)]).clone();
